@@ -10,6 +10,7 @@ import (
 	"sort"
 	"strings"
 	"testing"
+	"testing/synctest"
 	"time"
 
 	"github.com/miekg/dns"
@@ -291,6 +292,10 @@ func runDial(tt *testing.T, tape *simrt.Tape, keep bool) (out simrt.Outcome) {
 		}
 		// the options run on this goroutine: build the attacker before breakpoints become live
 		atk := vegeta.NewAttacker(opts...)
+		// DNSCaching with a positive ttl starts its refresh goroutine here: let it reach its select before breakpoints
+		// and mediation become live, or whether it parks at an armed site on its way depends on which of the
+		// two goroutines the runtime happens to run first (found by the determinism self-test)
+		synctest.Wait()
 		w.Activate()
 		dial := tr.DialContext
 		targets := append([]string{"svc.test:80", "10.1.1.1:8080"}, moreSources...)
